@@ -62,7 +62,7 @@ var c05PillarCounts = []int{3, 1, 8, 29, 30, 31, 45, 2}
 func c05Cases(tier string, seed int64) []string {
 	n := 8
 	if tier == "thorough" {
-		n = 96
+		n = 960
 	}
 	var l []string
 	for i := 0; i < n; i++ {
